@@ -23,6 +23,11 @@ package logger
 //@ func (*Logger).Warnf
 //@   trusted
 //@   modifies bytes.*
+// C18: the Logger is shared by every goroutine of a run (tasks, dependencies, watchers) and holds no lock: it is
+// configured once and never written afterwards - not by its own methods either (a buffered reader, a counter, a
+// "last message" kept in a field would be state shared without synchronisation)
+//@ state_fields Logger: except setup_never                                                                      [C18,C17]
+
 // A prompt is answered "yes" in two ways only: --yes was given (AssumeYes), or what was typed is one of the accepted
 // answers. Nothing else - a dry run, a missing terminal, an empty line - counts as consent (the trust prompt of a
 // remote Taskfile and the prompts of a task both go through here).
